@@ -60,6 +60,10 @@ def int_dom(nm, kind, c=None):
         n = k.n
         if nm in ("add", "sub", "mul"):
             return fits(x, n - 1) & fits(y, n - 1)
+        if nm in ("lt", "le", "gt", "ge"):
+            # "comparison differences that fit the configured bitlength" (C05), i.e. |x - y| <= 2^n - 1 -- which is what
+            # check_positive documents ("works for __lt__, etc on bitlength-length values")
+            return (x - y <= (1 << n) - 1) & (y - x <= (1 << n) - 1)
         if nm in CMP:
             return fits(x, n - 1) & fits(y, n - 1)
         if nm == "truediv":
@@ -282,6 +286,14 @@ def make_asserts(n):
     ents.append(Entry("decl_bool_lc", lambda k: [k.bo.LinCombBool(k.S("x"))], ("x",),
                       ref=lambda k: (k.v("x") == 0) | (k.v("x") == 1),
                       dom=lambda k: fits(k.v("x"), k.n), tags={"assert", "decl", "bool"}))
+    # an integer wire declared boolean by *use*: handed to a logical operation with a boolean (both operand orders)
+    uses = [("and", lambda b, x: b & x), ("rand", lambda b, x: x & b), ("or", lambda b, x: b | x), ("xor", lambda b, x: b ^ x),
+            ("rxor", lambda b, x: x ^ b)]
+    for nm, f in uses:
+        ents.append(Entry("decl_bool_by_use_%s" % nm, (lambda k, f=f: [f(k.B("b"), k.S("x"))]), ("b", "x"),
+                          ref=lambda k: (k.v("x") == 0) | (k.v("x") == 1),
+                          assume=lambda k: [(k.v("b") == 0) | (k.v("b") == 1)],
+                          dom=lambda k: fits(k.v("x"), k.n), tags={"assert", "decl", "bool", "use"}))
     return ents
 
 
